@@ -60,10 +60,15 @@ LEVEL_NOTE = ("PARTIAL: proof over an abstract OS state whose POSIX semantics ar
               "real pty each run); the theorems are consequences of the model's own save/set/restore structure, so the weight of the "
               "evidence is on the real-pty tie (model snapshots vs observed tcgetattr/F_GETFL/getsignal/wake-up fd/fds/output after every "
               "step) and the before/after oracle; exceptions only at operation boundaries / the blocked select / after the read / at a "
-              "write inside a render; hypotheses of C12_restore_partial: NoLeak (complement of D18: threadsafe_event_trigger leaks two "
-              "pipe fds), NoCrash (complement of D36: a render cut short leaves the cursor hidden when hide_cursor=False), NoEnv (nobody "
+              "write inside a render; hypotheses of C12_restore_partial: NoLeak (complement of D18: no threadsafe_event_trigger call; the "
+              "oracle's footprint: the leaked descriptors are exactly the pipes those calls opened), CrashOk (EXACT complement of D36: no "
+              "render of a hide_cursor=False window is cut short at a write after its first one - failing writes in hide_cursor=True "
+              "windows and first-write failures are covered by the theorem; oracle footprint: such a render of the window being left or "
+              "of one entered inside it), NoEnv (also a hypothesis of C12_full_statement, so that only D18/D36 refute it: nobody "
               "else changes tty attributes / status flags / SIGINT handler WHILE a context is active - such changes are covered between "
-              "uses: C12_reuse); main-screen clause: NoScreenSwitch (complement of D26). trusted: Lean "
+              "uses: C12_reuse); main-screen clause: NoScreenSwitch (no FullscreenWindow nested in the body - a superset of D26's footprint 'an inner "
+              "FullscreenWindow was left before the first main-screen write': nested FullscreenWindows that are never followed by a "
+              "write are excluded by the theorem although harmless; the oracle uses the exact footprint). trusted: Lean "
               "kernel + propext/Classical.choice/Quot.sound, the hand-written model, the harness' observation code")
 TRUSTED = ["harness/props/c12.py observation of the live process (tcgetattr, F_GETFL, getsignal, set_wakeup_fd probe, /proc/self/fd) "
            "and its evaluation of symbolic tty terms on a scratch pty"]
@@ -384,6 +389,7 @@ class Runner:
         self.enter_failed = None
         self.asserts = []        # expectations about return values that failed
         self.op_win = None
+        self.op_fds = None
 
     # -- setup / teardown --
     def setup(self):
@@ -549,7 +555,8 @@ class Runner:
         inp = next((o for t, o in reversed(stack) if t[1] == "I"), None)
         inp_tok = next((t for t, o in reversed(stack) if t[1] == "I"), None)
         win = next((o for t, o in reversed(stack) if t[1] in "FC"), None)
-        self.op_win = next((t for t, o in reversed(stack) if t[1] in "FC"), None)
+        self.op_win = next(((t, id(o)) for t, o in reversed(stack) if t[1] in "FC"), None)
+        self.op_fds = None
         if tok == "r":
             if win is not None:
                 win.render_to_terminal([fmtstr("ab")])
@@ -577,7 +584,9 @@ class Runner:
             inp.event_trigger(Ev)
             inp.scheduled_event_trigger(SEv)
         elif tok == "T":
+            n0 = len(self.shim.pipes)
             inp.threadsafe_event_trigger(Ev)
+            self.op_fds = {fd for pair in self.shim.pipes[n0:] for fd in pair}      # the trigger's own pipe
         elif tok == "q0":
             inp.send(0)
         elif tok == "q1":
@@ -622,11 +631,11 @@ class Runner:
                         entered = True
                         if tok[1] == "I":
                             self.entries.append(cm)
-                        self.events.append(("enter", tok, self.snapshot(), before, None))
+                        self.events.append(("enter", tok, self.snapshot(), before, id(cm)))
                         self.exec_level(toks, i + 1, stack + [(tok, cm)])
                 finally:
                     if entered:
-                        self.events.append(("exit", tok, self.snapshot(), before, None))
+                        self.events.append(("exit", tok, self.snapshot(), before, id(cm)))
                     else:
                         self.enter_failed = tok
                 i = j
@@ -635,7 +644,7 @@ class Runner:
                 try:
                     self.do_op(tok, stack)
                 finally:
-                    self.events.append(("op", tok, self.snapshot(), before, self.op_win))
+                    self.events.append(("op", tok, self.snapshot(), before, (self.op_win, self.op_fds)))
                 i += 1
         return i
 
@@ -810,7 +819,11 @@ def oracle(c):
             k0, tok0, before0 = enters.pop()
             a, b = r.snaps[before0], r.snaps[si]
             inside = r.events[k0 + 1:k]
-            n_ts = sum(1 for e in inside if e[0] == "op" and e[1] == "T")
+            my_id = _w
+            trigger_fds = set()
+            for e in inside:
+                if e[0] == "op" and e[1] == "T" and e[4][1]:
+                    trigger_fds |= e[4][1]
             how = "by exception" if any(e[1] == "!" for e in inside) or r.raised else "normally"
             items = []          # (what, footprint): every clause is judged on its own
             if a["tty"] != b["tty"]:
@@ -823,19 +836,22 @@ def oracle(c):
                 items.append(("signal wake-up fd %r -> %r" % (a["wake"], b["wake"]), None))
             if a["fds"] != b["fds"]:
                 leaked, closed = b["fds"] - a["fds"], a["fds"] - b["fds"]
-                # footprint D18: nothing closed, and exactly two descriptors per threadsafe_event_trigger call made inside
-                fp = "D18" if (not closed and n_ts and len(leaked) == 2 * n_ts) else None
+                # footprint D18: nothing closed, and the leaked descriptors are exactly the pipes opened by the
+                # threadsafe_event_trigger calls made inside this context
+                fp = "D18" if (not closed and leaked and leaked == trigger_fds) else None
                 items.append(("descriptors leaked: %d" % len(leaked) if leaked else "descriptors closed that were open before", fp))
-            # footprint D36: a render raised at a write after the first one, in a window with hide_cursor=False, inside
-            crash36 = any(e[0] == "op" and e[1].startswith("R") and int(e[1][1:]) >= 1 and e[4] is not None and e[4][2] == "0"
-                          for e in inside)
+            # footprint D36: a render of THIS window, or of a window entered inside it, created with hide_cursor=False,
+            # raised at a write after the first one
+            nested_ids = {my_id} | {e[4] for e in inside if e[0] == "enter"}
+            crash36 = any(e[0] == "op" and e[1].startswith("R") and int(e[1][1:]) >= 1 and e[4][0] is not None
+                          and e[4][0][0][2] == "0" and e[4][0][1] in nested_ids for e in inside)
             if tok0[1] in "FC" and tok0[2] == "1" and not b["cur"]:
                 items.append(("cursor still hidden", None))
-            if a["cur"] and not b["cur"]:
+            if tok0[1] in "FC" and a["cur"] and not b["cur"]:      # only windows touch the cursor
                 items.append(("cursor was visible before, hidden after", "D36" if crash36 else None))
             if tok0[1] == "F" and b["alt"]:
                 items.append(("alternate screen still active", None))
-            if not a["alt"] and b["alt"]:
+            if tok0[1] in "FC" and not a["alt"] and b["alt"]:
                 items.append(("alternate screen active after, not before", None))
             if tok0[1] == "F" and b["main_writes"] != a["main_writes"]:
                 # footprint D26: a FullscreenWindow was entered and left inside this one before the first write
